@@ -2,9 +2,14 @@
 
 package sod
 
+import "os"
+
 // C01 — reads reflect exactly the accepted writes (public API, bounded
 // builder history followed by one operation of every kind).
+var vhC01Gone []string // identifiers deleted during the run
+
 func VH_C01_crud() {
+	vhC01Gone = nil
 	cfg := vhPickCfg()
 	db, root := vhOpenDB(cfg)
 	var rows []vhRow
@@ -27,6 +32,23 @@ func VH_C01_crud() {
 		}
 	}
 	vhCheckReads("C01.after", db, rows)
+	// a deleted identifier is not found, every time it is tried, on every
+	// lookup path (unless it was stored again since)
+	for _, u := range vhC01Gone {
+		if vhFindRow(rows, u) >= 0 {
+			continue
+		}
+		for k := 0; k < 2; k++ {
+			_, err := db.GetByUUID(&vObj{}, u)
+			vAssert("C01.after.deleted.get", err != nil && os.IsNotExist(err))
+		}
+		probe := &vObj{}
+		probe.Initialize(u)
+		_, gerr := db.Get(probe)
+		vAssert("C01.after.deleted.getobj", gerr != nil)
+		ok, eerr := db.Exist(probe)
+		vAssert("C01.after.deleted.exist", eerr == nil && !ok)
+	}
 }
 
 // vhC01Step performs one operation of every kind and updates the model.
@@ -75,6 +97,7 @@ func vhC01Step(db *DB, root string, rows []vhRow) (*DB, []vhRow) {
 		o.Initialize(rows[k].uuid)
 		err := db.Delete(o)
 		vAssert("C01.delete.ok", err == nil)
+		vhC01Gone = append(vhC01Gone, rows[k].uuid)
 		rows = append(rows[:k:k], rows[k+1:]...)
 	case 4: // batch of two new objects
 		a, b := vhNewObj(), vhNewObj()
@@ -89,6 +112,7 @@ func vhC01Step(db *DB, root string, rows []vhRow) (*DB, []vhRow) {
 		var keep []vhRow
 		for i := range rows {
 			if rows[i].o.A >= p {
+				vhC01Gone = append(vhC01Gone, rows[i].uuid)
 				continue
 			}
 			keep = append(keep, rows[i])
@@ -97,6 +121,9 @@ func vhC01Step(db *DB, root string, rows []vhRow) (*DB, []vhRow) {
 	case 6: // delete everything
 		err := db.DeleteAll(&vObj{})
 		vAssert("C01.deleteall.ok", err == nil)
+		for i := range rows {
+			vhC01Gone = append(vhC01Gone, rows[i].uuid)
+		}
 		rows = nil
 	case 7: // close and reopen
 		db = vhReopen(db, root)
